@@ -59,9 +59,23 @@ def dir_stat(root):
     return out
 
 
-def run_cli(image_path, rpc, target=None):
+def _safe_cwd():
+    """the working directory; if it has been removed under our feet, move to the scratch root first"""
+    try:
+        return os.getcwd()
+    except OSError:
+        os.chdir(common.SCRATCH)
+        return os.getcwd()
+
+
+def run_cli(image_path, rpc, target=None, keep_cwd=True):
     from ceos_alos2.sar_image import cli
-    cli.create_cache(pathlib.Path(image_path), pathlib.Path(target) if target else None, rpc)
+    cwd = _safe_cwd()
+    try:
+        cli.create_cache(pathlib.Path(image_path), pathlib.Path(target) if target else None, rpc)
+    finally:
+        if keep_cwd and _safe_cwd() != cwd:
+            os.chdir(cwd)     # (whether the tool may move the working directory is judged by the C10 history oracle)
 
 
 # ---------------------------------------------------------------------------------------------
@@ -126,20 +140,31 @@ def check_c07(seed, tier):
                     viol.append({"case": case, "what": f"open with cache raised {type(e).__name__}: {e}"[:300], "key": f"cache-raises:{fs}:{type(e).__name__}"})
                 finally:
                     si.read_metadata = orig
-                # use_cache=False consults no cache: poison both caches, the open must not notice
+                # use_cache=False consults no cache: poison both caches, the open must not notice — once with text that is not
+                # JSON (a consulted cache would be rejected and silently bypassed), once with a VALID index describing another
+                # image (a consulted cache would be believed)
                 if fs in ("local", "file"):
                     local_dir = path[len("file://"):] if path.startswith("file://") else path
-                    for im in prod.images:
-                        with open(os.path.join(local_dir, im.name + ".index"), "w") as f:
-                            f.write("{not json")
+                    other = products.build(dict(cfg, seed=cfg["seed"] + 1, n_lines=cfg["n_lines"] + 2))
+                    opath, oclean = products.place(other, "local")
                     try:
-                        got = fp(_open(path, use_cache=False, records_per_chunk=rr))
-                        if treecmp.diff(ref, got):
-                            viol.append({"case": case, "what": "use_cache=False result depends on cache files"})
-                    except Exception as e:  # noqa: BLE001
-                        viol.append({"case": case, "what": f"use_cache=False consulted a cache: {type(e).__name__}"})
-                    for im in prod.images:
-                        os.remove(os.path.join(local_dir, im.name + ".index"))
+                        for im in other.images:
+                            run_cli(os.path.join(opath, im.name), 2)
+                        foreign = {im.name: open(os.path.join(opath, im.name + ".index")).read() for im in other.images}
+                    finally:
+                        oclean()
+                    for poison in ("not-json", "valid-index-of-another-image"):
+                        for im in prod.images:
+                            with open(os.path.join(local_dir, im.name + ".index"), "w") as f:
+                                f.write("{not json" if poison == "not-json" else foreign[im.name])
+                        try:
+                            got = fp(_open(path, use_cache=False, records_per_chunk=rr))
+                            if treecmp.diff(ref, got):
+                                viol.append({"case": {**case, "poison": poison}, "what": "use_cache=False result depends on cache files"})
+                        except Exception as e:  # noqa: BLE001
+                            viol.append({"case": {**case, "poison": poison}, "what": f"use_cache=False consulted a cache: {type(e).__name__}: {e}"[:200]})
+                        for im in prod.images:
+                            os.remove(os.path.join(local_dir, im.name + ".index"))
         finally:
             wipe_user_cache()
             clean()
@@ -471,6 +496,7 @@ def check_c10(seed, tier):
                 ops.append(op)
                 evals += 1
                 case = {"cfg": cfg, "history": list(ops)}
+                cwd_before = _safe_cwd()
                 adj_before = {k: v for k, v in dir_hash(path).items() if k.endswith(".index")}
                 try:
                     if op["op"] == "open":
@@ -506,7 +532,7 @@ def check_c10(seed, tier):
                         if cur != adj_before:
                             viol.append({"case": case, "what": "open_alos2 changed index files next to the images"})
                     elif op["op"] == "cli":
-                        run_cli(os.path.join(path, prod.images[op["image"]].name), op["rpc"])
+                        run_cli(os.path.join(path, prod.images[op["image"]].name), op["rpc"], keep_cwd=False)
                     elif op["op"] == "del_local":
                         wipe_user_cache()
                     else:
@@ -516,6 +542,14 @@ def check_c10(seed, tier):
                                 os.remove(p)
                 except Exception as e:  # noqa: BLE001
                     viol.append({"case": case, "what": f"{type(e).__name__}: {e}"[:300], "key": common.failure_site(e)})
+                try:
+                    cwd_after = os.getcwd()
+                except OSError:
+                    cwd_after = None
+                if cwd_after != cwd_before:
+                    # what a later open of a RELATIVE path means depends on the working directory: no operation may move it
+                    viol.append({"case": case, "what": f"the operation changed the process working directory ({cwd_before} -> {cwd_after}): later opens of relative paths would resolve elsewhere"})
+                    os.chdir(cwd_before)
             distinct.add(json.dumps(ops))
             if len(samples) < 2:
                 samples.append({"cfg": cfg, "history": ops[:6]})
